@@ -635,6 +635,7 @@ class LifeRun(Base):
         self.disk.files[path] = content
         self.last_good = content
         self.expected = None  # list of rules in effect
+        self.persisted = None
         self.origin = None
         self.touched = []
         self.probe_rules = list(config.get("probe_rules", []))
@@ -658,24 +659,30 @@ class LifeRun(Base):
             hosts.append(extra)
         return hosts
 
-    def check_against(self, candidates, op):
-        """The answers must equal PSL over exactly one candidate rule list; the
-        one that fits becomes the list in effect."""
+    def current_lists(self):
+        """The rule list the process itself holds as 'the bundled list'."""
+        import sys
+
+        data = getattr(self.node.tld, "tld_data", None) or sys.modules["ural.tld_data"]
+        return list(data.PUBLIC_SUFFIXES) + list(data.PRIVATE_SUFFIXES)
+
+    def check_against(self, name, rule_list, op):
+        """The answers must equal the PSL algorithm run over rule_list."""
         api = TldApi(self.node.tld)
-        first = None
-        for name, rule_list in candidates:
-            rules = psl.RuleSet(rule_list)
-            d = self.find(api, rules, self.sweep_hosts(rule_list), probes=(first is None))
-            if d is None:
-                self.expected = rule_list
-                if len(candidates) > 1:
-                    self.stats.probe("failed_upgrade_left_" + name)
-                return
-            if first is None:
-                first = (d, rule_list)
-        d, rule_list = first
-        extra = sorted(rule_list) if len(rule_list) <= 12 else None
-        self.raise_or_known(d, op, extra)
+        rules = psl.RuleSet(rule_list)
+        d = self.find(api, rules, self.sweep_hosts(rule_list))
+        if d is not None:
+            d = dict(d, invariant=d["invariant"] + ("" if name == "data" else "_vs_" + name))
+            extra = sorted(rule_list) if len(rule_list) <= 12 else None
+            self.raise_or_known(d, op, extra)
+
+    def check_current(self, op):
+        """O1 — at the end of every operator event the answers agree with the
+        algorithm over the list the module holds in tld_data (no mixture of an
+        old and a new list, no stale trie)."""
+        current = self.current_lists()
+        self.check_against("data", current, op)
+        self.expected = current
 
     def boot(self, op):
         stats = self.stats
@@ -694,7 +701,18 @@ class LifeRun(Base):
         stats.probe("restart_ok")
         self.last_good = self.disk.files[self.node.data_path]
         loaded = list(module.PUBLIC_SUFFIXES) + list(module.PRIVATE_SUFFIXES)
-        self.check_against([("file", loaded)], op)
+        if sorted(self.current_lists()) != sorted(loaded):
+            raise HarnessError("restart did not install the durable data module")
+        self.check_current(op)
+        if self.persisted is not None:
+            # not a C08 clause (no listed property promises durable upgrades):
+            # reported as a note, never as a violation
+            pub, tlds = self.persisted
+            if sorted(pub) != sorted(loaded) or not set(puny_twin(t) if t.startswith("xn--") else t for t in tlds) <= set(module.TLDS):
+                stats.probe("NOTE_persisted_upgrade_not_reloaded_after_restart")
+            else:
+                stats.probe("persisted_upgrade_reloaded_after_restart")
+            self.persisted = None
 
     def state(self, op):
         if self.stats.collect:
@@ -764,6 +782,7 @@ class LifeRun(Base):
                 served = None
         stats.event("OP|upgrade|%s|%s|%s|writes=%d" % (transient, canon(fault), outcome, self.disk.writes))
         if outcome == "crash":
+            self.persisted = None
             stats.probe("crash_torn" if self.disk.files[path] != before else "crash_file_intact")
             # volatile state is gone; the process restarts from the durable file
             self.boot("restart_after_crash")
@@ -781,13 +800,28 @@ class LifeRun(Base):
                     self.disk.files[path] = f.read()
             if previous is not None and set(previous) - set(served):
                 stats.probe("upgrade_removed_rules")
-            self.check_against([("served", served)], "upgrade")
+            # O2 — a successful upgrade takes effect: the list the origin served
+            self.check_against("served", served, "upgrade")
+            if sorted(self.current_lists()) != sorted(served):
+                self.check_current("upgrade")
+            self.expected = served
+            if not transient and fault is not None:
+                self.persisted = None
+            if not transient and fault is None:
+                try:
+                    tlds = [t.lower() for t in self.net.served[1].decode("utf-8").split("\n") if t and not t.startswith("#")]
+                except UnicodeDecodeError:
+                    tlds = []
+                self.persisted = (served, tlds)
         else:
             stats.probe("upgrade_" + outcome.replace(":", "_"))
-            candidates = [("old", previous)]
-            if served is not None and served != previous:
-                candidates.append(("served", served))
-            self.check_against(candidates, "upgrade_failed")
+            if served is not None and sorted(self.current_lists()) == sorted(served) and sorted(served) != sorted(previous or []):
+                stats.probe("failed_upgrade_left_served")
+            else:
+                stats.probe("failed_upgrade_left_old")
+            self.check_current("upgrade_failed")
+            if not transient:
+                self.persisted = None
         self.state("upgrade_" + outcome.split(":")[0])
 
     def finish(self):
@@ -1029,7 +1063,7 @@ RULE = (
     "restart, network and disk faults and crashes land inside upgrades) starting from a synthetic data file or the real "
     "bundled one, with a host sweep after every operator event. Oracle: an independent set-based implementation of the "
     "publicsuffix.org algorithm over the rule list in effect (after a successful upgrade: the list the origin served; after "
-    "a failed one: the old list or the served list, never a mixture; after a restart: the list the process loaded). "
+    "a failed one and after a restart: the list the module itself holds in tld_data, so never a mixture or a stale trie). "
     "distinct_nontrivial = distinct non-empty rule sets reached (rules class) plus distinct (operation, list in effect, "
     "durable file) states (life class)."
 )
